@@ -39,7 +39,7 @@ from vkit import codec, soup, tspec  # noqa: E402
 
 PROP = "C04"
 DEBUG = [DebugTrail.DISABLE, DebugTrail.FIRST, DebugTrail.ALL]
-GEN = tspec.TypeGen(max_depth=3, dumpable_unions=False, disjoint_unions=False)
+GEN = tspec.TypeGen(max_depth=3, dumpable_unions=False, disjoint_unions=False, unhashable_set_elems=True)
 GEN_NEAR = tspec.TypeGen(max_depth=3)   # for near-valid data the reference dump needs dumpable unions
 
 PROVS = ["flag_names", "ts_datetime", "ts_date", "enum_name", "dt_format"]
@@ -112,7 +112,13 @@ def st_case(draw):
         datum, ops = draw(soup.st_near_valid(t, layouts=ref_layouts, root_structure=model_root))
     else:
         t = draw(GEN.strategy())
-        datum, ops = draw(soup.st_soup()), ["soup"]
+        if tspec.has_set_node(t) and tspec.near_valid_possible(t) and draw(st.booleans()):
+            # aimed data for sets, also for sets whose elements load to unhashable values: a near-valid dump of the
+            # same type with lists in place of the sets
+            datum, ops = draw(soup.st_near_valid(tspec.listify_sets(t)))
+            ops = ["listified_sets", *ops]
+        else:
+            datum, ops = draw(soup.st_soup()), ["soup"]
     provs = draw(st.lists(st.sampled_from(PROVS), max_size=2, unique=True)) if draw(st.integers(0, 3)) == 0 else []
     layouts = {}
     for n in model_names(t):
